@@ -5,6 +5,8 @@ import (
 	"go/token"
 	"go/types"
 	"strings"
+
+	"golang.org/x/tools/go/ssa"
 )
 
 // Blocking sites.  `site block * LABEL: requires <expr>` in a function contract is checked at every operation of the
@@ -75,5 +77,74 @@ func init() {
 		}
 		e.vc.regComp("Own_LastSelect", "Int")
 		return Bound{V: Val{eq(e.vc.get(e.state, "Own_LastSelect"), a.V.T), "Bool"}, T: types.Typ[types.Bool]}, nil
+	}
+}
+
+// site send * LABEL: requires <expr over value, ch>: checked at every send of the function (plain or in a select,
+// then under the condition that the send case is the one taken).  ownsentbytes() is the total length of the byte
+// slices this activation has sent so far.
+func (f *Frame) siteSend(ch ssa.Value, c, v Val, pos token.Pos, cond string) {
+	vc := f.vc
+	rc := f.rootContract()
+	if rc != nil {
+		for _, s := range rc.Sites {
+			if s.Kind != "send" {
+				continue
+			}
+			env := f.envAt(f.cur, nil)
+			ct := ch.Type().Underlying().(*types.Chan)
+			env.vars["value"] = Bound{V: v, T: ct.Elem()}
+			env.vars["ch"] = Bound{V: c, T: ch.Type()}
+			t, err := env.evalBool(s.Expr)
+			if err != nil {
+				vc.unbound = append(vc.unbound, fmt.Sprintf("%s: site send: %v", f.key, err))
+				continue
+			}
+			g := f.guard
+			if cond != "true" {
+				g = and(g, cond)
+			}
+			lbl := f.label("site", "send:"+s.Label)
+			f.assertObl("site", lbl, s.Tags, g, t, f.p.posString(pos))
+		}
+	}
+	if v.S == "Slice" {
+		vc.regComp("Own_SendBytes", "Int")
+		n := vc.get(f.cur, "Own_SendBytes")
+		vc.set(f.cur, "Own_SendBytes", ite(cond, fmt.Sprintf("(+ %s (s-len %s))", n, v.T), n))
+	}
+}
+
+func init() {
+	extCalls["ownsentbytes"] = func(e *Env, x *Expr) (Bound, error) {
+		e.vc.regComp("Own_SendBytes", "Int")
+		return Bound{V: Val{e.vc.get(e.state, "Own_SendBytes"), "Int"}, T: types.Typ[types.Int64]}, nil
+	}
+}
+
+// site continue <loop key | #n> LABEL: requires <expr>: must hold on every back edge of that loop, i.e. whenever the
+// loop goes round again (evaluated with the values of the iteration that ends; nothing is assumed from it at the
+// loop head, so locals of the body may be mentioned).  Typical use: "the loop continues only while the work is not
+// complete" - the converse of an exit condition.
+func (f *Frame) siteContinue(li *loopInfo, latch *ssa.BasicBlock, guard string, st *State) {
+	rc := f.rootContract()
+	if rc == nil || f.contract == nil {
+		return
+	}
+	for _, s := range rc.Sites {
+		if s.Kind != "continue" || !(s.Pattern == li.key || s.Pattern == fmt.Sprintf("#%d", li.ordinal)) {
+			continue
+		}
+		savedBlock := f.curBlock
+		f.curBlock = latch
+		env := f.envAt(st, nil)
+		t, err := env.evalBool(s.Expr)
+		f.curBlock = savedBlock
+		if err != nil {
+			f.vc.unbound = append(f.vc.unbound, fmt.Sprintf("%s: site continue %s: %v", f.key, s.Pattern, err))
+			continue
+		}
+		lbl := f.label("site", "continue:"+s.Pattern+":"+s.Label)
+		f.assertObl("site", lbl, s.Tags, guard, t, "")
 	}
 }
